@@ -630,18 +630,29 @@ func hasFieldSetCycle(texts []c17.PkgText) bool {
 			}
 		}
 	}
-	var visit func(n string, path map[string]bool) bool
-	visit = func(n string, path map[string]bool) bool {
-		if path[n] {
+	// depth-first with colours: every TYPE is expanded once (a TYPE included along many paths must not multiply
+	// the work: the harness itself would hang on `TYPE tN (tN-1, tN-1)` ...)
+	const (
+		white = iota
+		grey
+		black
+	)
+	colour := map[string]int{}
+	var visit func(n string, _ map[string]bool) bool
+	visit = func(n string, _ map[string]bool) bool {
+		switch colour[n] {
+		case grey:
 			return true
+		case black:
+			return false
 		}
-		path[n] = true
-		defer delete(path, n)
+		colour[n] = grey
 		for _, x := range includes[n] {
-			if visit(x, path) {
+			if visit(x, nil) {
 				return true
 			}
 		}
+		colour[n] = black
 		return false
 	}
 	for n := range includes {
